@@ -336,6 +336,30 @@ def union_members(ctx, RULE):
     r = run(G.union(C('X'), lst))
     ctx.ob(RULE, 'union:container-member-checked-deeply', UNION, 'a container member of a union is enqueued as a child hint',
            [h for _, h in r.children if h is lst] != [], f'children enqueued: {[getattr(h, "label", h) for _, h in r.children]}')
+    # (d)
+    _union_parent_metadata(ctx, RULE, G, run, UNION)
+
+
+def _union_parent_metadata(ctx, RULE, G, run, UNION):
+    """(d) of union_members: under which parent metadata the members of a flattened union are sanified."""
+    C = G.cls
+    lst = G.subscripted('HintSignList', C('I'))
+    inner = G.union(C('F'), G.subscripted('HintSignSet', C('J')))
+    m = G.subscripted('HintSignPep484585GenericSubbed', C('M'), reduces_to=(inner, {}))
+    for order, members in (('nested-union-last', (lst, m)), ('nested-union-first', (m, lst))):
+        root = G.union(*members)
+        r = run(root)
+        par = {}
+        for s_ in r.children_sane:
+            p_ = getattr(s_, 'passed_parent', None)
+            par[getattr(s_.hint, 'label', repr(s_.hint))] = getattr(p_, 'hint', None)
+        ok = par.get('List') is root and par.get('Set') is inner
+        ctx.ob(RULE, f'union:members-sanified-under-their-own-parent:{order}', UNION,
+               'a direct member of a union is sanified under the union\'s metadata and a member of a nested union (a member that '
+               'reduced to a union: an overridden hint) under that nested union\'s — whatever the order of the members (the '
+               'recursion guard of an expanded override must not leak onto sibling members)', ok,
+               f'List sanified under {"the union" if par.get("List") is root else "the nested union" if par.get("List") is inner else par.get("List")!r}, '
+               f'Set under {"the nested union" if par.get("Set") is inner else "the union" if par.get("Set") is root else par.get("Set")!r}')
 
 
 def subclass_child(ctx, RULE):
